@@ -302,7 +302,11 @@ def run(ctx):
         "while handler k runs} followed by start() twice (the second must be "
         "refused). Every piece is compared with the reference semantics "
         "(outcome, executed trace, clock, states) and the final trace/clock "
-        "with the uninterrupted run. distinct_nontrivial counts the "
+        "with the uninterrupted run. Plus every segmentation of depth <=1 "
+        "of the <=2-event (thorough <=3) programs and small bursts with an "
+        "unrelated simulator of the same class created, initialised and run "
+        "in the same process after every piece (its own trace must be the "
+        "uninterrupted one too). distinct_nontrivial counts the "
         "segmentations in which every piece is a specified cell (exact "
         "comparison); the others (bound before the clock / beyond the end, "
         "step with the next event beyond the end) get the safety oracle only: "
